@@ -25,8 +25,8 @@ META = dict(
 TLC_SHARDS = 6
 
 
-def gen_cfg(shard, nshards, wrapsel, props=True):
-    s = 'SPECIFICATION Spec\nCONSTANTS Shard = %d\n NShards = %d\n WrapSel = %d\n' % (shard, nshards, wrapsel)
+def gen_cfg(shard, nshards, wrapsel, div, props=True):
+    s = 'SPECIFICATION Spec\nCONSTANTS Shard = %d\n NShards = %d\n WrapSel = %d\n Div = %d\n' % (shard, nshards, wrapsel, div)
     if props:
         s += 'INVARIANT Props\n'
     return s + 'CONSTRAINT Emit\nCHECK_DEADLOCK FALSE\n'
@@ -37,7 +37,7 @@ def tlc_cases(ctx):
     wrapsel = 0 if th else 1 + (ctx.seed % 11)
 
     def one(k):
-        r = ctx.tlc('QueryGen', 'qgen%d.cfg' % k, cfg_text=gen_cfg(k, TLC_SHARDS, wrapsel), name='mcgen_query_%d' % k,
+        r = ctx.tlc('QueryGen', 'qgen%d.cfg' % k, cfg_text=gen_cfg(k, TLC_SHARDS, wrapsel, 1 if th else 2), name='mcgen_query_%d' % k,
                     workers=2, timeout=2400 if th else 600, heap='2g')
         ctx.tlc_expect_ok(r, 'Query.tla properties over the construct inventory (shard %d)' % k)
         return r.printed
@@ -45,13 +45,13 @@ def tlc_cases(ctx):
     with ThreadPoolExecutor(max_workers=TLC_SHARDS) as ex:
         for pr in ex.map(one, range(TLC_SHARDS)):
             cases += pr
-    if len(cases) < 3000:
+    if len(cases) < 2000:
         raise Inconclusive('GEN produced too few trees: %d' % len(cases))
     # anti-vacuity of the model-checked properties: the inventory really needs parentheses somewhere and not everywhere
     with_par = sum(1 for c in cases if '(' in c['min'])
     if with_par < 200 or with_par > len(cases) - 200:
         raise Inconclusive('vacuous inventory: %d of %d minimal prints contain parentheses' % (with_par, len(cases)))
-    ctx.cov['query_inventory'] = dict(trees=len(cases), exhaustive_wrappers=th, min_prints_with_parentheses=with_par,
+    ctx.cov['query_inventory'] = dict(trees=len(cases), exhaustive_wrappers=th, triples_sample='1/1' if th else '1/2 (seed-rotated)', min_prints_with_parentheses=with_par,
                                       properties=['MinStable', 'NormStable', 'SameTree(min,full)', 'Reparse(min)', 'Reparse(full)',
                                                   'RewriteReparses', 'RewriteKeepsUser', 'NoCapture', 'Slurp parts'])
     # SIM: deeper random trees
@@ -89,12 +89,15 @@ def tv(ctx, evs, name, shards=None, demo=False):
 
 
 def binding_demo(ctx, evs):
-    def good(e):
-        return ('real' in e and 'runs' in e.get('f4', {}) and len(e['f4']['runs']) >= 2 and e['f4']['runs'][0]['fq']
-                and 'op' in e['a'] and e['rw']['inputs']['ast'].get('op') == '|')
-    pick = [e for e in evs if good(e)]
-    if len(pick) < 6:
-        raise Inconclusive('no suitable events for the TraceQuery binding demo (%d)' % len(pick))
+    def f4ok(e):
+        return 'runs' in e.get('f4', {}) and len(e['f4']['runs']) >= 2 and e['f4']['runs'][0]['fq']
+    ops = [e for e in evs if 'op' in e.get('a', {}) and 'op' in e.get('a1', {})]
+    pipes = [e for e in evs if e.get('s1') not in (None, '.') and e.get('rw', {}).get('inputs', {}).get('ast', {}).get('op') == '|' and 'try' in e['rw']['inputs']['ast'].get('right', {}).get('left', {}).get('term', {})]
+    outs = [e for e in evs if f4ok(e)]
+    reals = [e for e in evs if 'real' in e and e['real'].get('null_input', '').startswith('null | ')]
+    if len(ops) < 2 or len(pipes) < 1 or len(outs) < 1 or len(reals) < 1:
+        raise Inconclusive('no suitable events for the TraceQuery binding demo (%d, %d, %d, %d)' % (len(ops), len(pipes), len(outs), len(reals)))
+    pick = [ops[0], ops[1], ops[-1], pipes[0], outs[0], reals[0]]
     base = pick[0]
     c1 = copy.deepcopy(pick[1]); c1['a1']['left'], c1['a1']['right'] = c1['a1']['right'], c1['a1']['left']     # round trip swapped operands
     if c1['a1'] == pick[1]['a1']:
